@@ -153,6 +153,7 @@ impl QRCode {
 
         let mode = mode.unwrap_or_else(|| encode::best_encoding(input));
         let level = ecl.unwrap_or(ECL::Q);
+        verif_point!("new:mode_chosen");
 
         let version = match Version::get(mode, level, input.len()) {
             Some(version) => version,
@@ -163,8 +164,10 @@ impl QRCode {
             None => version,
             Some(_) => return Err(QRCodeError::SpecifiedVersion),
         };
+        verif_point!("new:version_chosen");
 
         let out = create_matrix(input, level, mode, version, &mut mask);
+        verif_point!("new:matrix_created");
         Ok(out)
     }
 
